@@ -151,8 +151,8 @@ def mmStepS (psBefore psAfter : PState) (ss : SState) (_i : Nat) (toks : List St
     let reuseTok := (optToks.find? (·.startsWith "reuse=")).map (fun t => (t.drop 6).toString)
     let idOf (tok : String) : List Nat := match sObj psBefore ss tok with | some (i, _) => [i] | none => []
     let dests : List Nat := (if unsafe_ then idOf a ++ idOf b else []) ++ (match reuseTok with | some t => idOf t | none => [])
-    let undef (ss : SState) : SOut := fin (dests.foldl (fun ss i => ss.setObj i none) ss) none
-    let refuse (ss : SState) : SOut := fin (dests.foldl (fun ss i => ss.setObj i none) ss) (some "r=err")
+    let undef (ss : SState) : SOut := fin (dests.foldl (fun ss i => ss.kill i) ss) none
+    let refuse (ss : SState) : SOut := fin (dests.foldl (fun ss i => ss.kill i) ss) (some "r=err")
     if optToks.any (·.startsWith "incr=") then undef ss else
     let opnd (tok : String) : Option (Option (Nat × SObj) × Option String) :=
       if tok.startsWith "$" then (sObj psBefore ss tok).map (fun x => (some x, none))
